@@ -155,7 +155,7 @@ fn must_accept(v: &Val, ty: u8, unsigned: bool) -> bool {
         Val::I64(_) => ty == 0x08 && !unsigned,
         Val::U64(_) => ty == 0x08 && unsigned,
         Val::Isize(_) | Val::Usize(_) => true,
-        Val::Myc(MV::Int(_)) => true,
+        Val::Myc(MV::Int(_)) => ty == 0x08 && !unsigned,
         Val::Myc(MV::UInt(_)) => ty == 0x08 && unsigned,
         Val::Dur(d) => d.as_secs() < 839 * 3600,
         Val::Date(d) => (0..=9999).contains(&d.year()),
